@@ -8,13 +8,15 @@ CONSTANTS MaxTok, NSlices, Slice
 VARIABLE c
 \* tokens as byte strings: 0 1 2 3 7 12 + - * / ( )
 Tokens == {<<48>>, <<49>>, <<50>>, <<51>>, <<55>>, <<49, 50>>, <<43>>, <<45>>, <<42>>, <<47>>, <<40>>, <<41>>}
-GapSets == << <<<<>>, <<>>, <<>>>>, <<<<32>>, <<32>>, <<32>>>>, <<<<>>, <<32>>, <<10>>>>, <<<<10>>, <<32, 9>>, <<>>>>, <<<<12>>, <<>>, <<32, 32>>>> >>
+GapSets == << <<<<>>, <<>>, <<>>>>, <<<<32>>, <<32>>, <<32>>>>, <<<<>>, <<32>>, <<10>>>>, <<<<10>>, <<32, 9>>, <<>>>>, <<<<12>>, <<>>, <<32, 32>>>>, <<<<10, 10>>, <<>>, <<10, 32, 10>>>> >>
 RECURSIVE Render(_, _, _)
 Render(ts, gs, i) == IF i > Len(ts) THEN gs[(i % 3) + 1] ELSE gs[(i % 3) + 1] \o ts[i] \o Render(ts, gs, i + 1)
-TokSeqs == UNION {[1..n -> Tokens] : n \in 1..MaxTok}
-Cases == {<<ts, g>> : ts \in TokSeqs, g \in 1..Len(GapSets)}
-CaseSeq == SetToSeq(Cases)
-Init == c \in {CaseSeq[i] : i \in {j \in 1..Len(CaseSeq) : j % NSlices = Slice}}
+TokSeq == SetToSeq(Tokens)
+TokIdx(t) == CHOOSE i \in 1..Len(TokSeq) : TokSeq[i] = t
+\* the cases are enumerated, never constructed as one set; a slice = the sequences whose first two tokens fall into it
+Init == \E n \in 1..MaxTok : \E ts \in [1..n -> Tokens] : \E g \in 1..Len(GapSets) :
+          /\ (TokIdx(ts[1]) + (IF n >= 2 THEN 12 * TokIdx(ts[2]) ELSE 0)) % NSlices = Slice
+          /\ c = <<ts, g>>
 Next == UNCHANGED c
 TextOfCase == Render(c[1], GapSets[c[2]], 1)
 Export ==
